@@ -367,7 +367,19 @@ func (f *FnVC) specField(env *SEnv, x Val, name string) (Val, error) {
 			return Val{T: f.fa(si.Name, idx, x.T), Typ: types.NewPointer(ft)}, nil
 		}
 		h := f.comp(env.cur, fieldComp(si.Name, idx), arraySort(SRef, f.TE.Sort(ft)))
-		return Val{T: sel(h, x.T), Typ: ft}, nil
+		out := Val{T: sel(h, x.T), Typ: ft}
+		// slices and strings read from the heap are well-formed Go values (closed terms only: not under a binder)
+		if (out.T.Sort == SSlice || out.T.Sort == SStr) && !strings.Contains(out.T.S, "q_") {
+			key := "ti:" + out.T.S
+			if !f.tiDone[key] {
+				if f.tiDone == nil {
+					f.tiDone = map[string]bool{}
+				}
+				f.tiDone[key] = true
+				f.typeInvariant(nil, out)
+			}
+		}
+		return out, nil
 	}
 	if st, ok := t.Underlying().(*types.Struct); ok {
 		si := f.TE.StructInfo(t)
@@ -864,6 +876,9 @@ func (f *FnVC) specCall(env *SEnv, e *spec.Expr, want types.Type) (Val, error) {
 			x, err := f.evalSpec(env, args[0], nil)
 			if err != nil {
 				return Val{}, err
+			}
+			if x.T.Sort == SSlice {
+				return Val{T: eq(app("lref", SRef, x.T), Term{"0", SRef}), Typ: boolT}, nil
 			}
 			return Val{T: eq(x.T, f.TE.zeroOfSort(x.T.Sort, x.Typ)), Typ: boolT}, nil
 		case "min", "max":
